@@ -6,8 +6,8 @@ import cont
 
 MODEL_TARGETS = ["spec/FileSpec.vo", "model/Container.vo"]
 COQ_TARGETS = ["props/C06.vo", "proofs/ConstsTie.vo"]
-THEOREMS = [("C06", ["C06_grammar", "C06_layout", "C06_long", "C06_long_is_crate"])]
-PROOF_FILES = ["proofs/ContainerProofs.v", "props/C06.v"]
+THEOREMS = [("C06", ["C06_grammar", "C06_layout", "C06_header_is_grammar", "C06_accepts", "C06_accepts_codec_absent", "C06_long", "C06_long_is_crate"])]
+PROOF_FILES = ["proofs/ContainerProofs.v", "props/C06.v", "proofs/ContainerReadProofs.v", "proofs/ContainerHeaderProofs.v"]
 TRUSTED_BASE = [
     "Coq 8.16.1 kernel; no axioms (Print Assumptions: closed); no native_compute",
     "extraction (ExtrOcamlBasic only) + ocaml/driver.ml (parsing/printing); Rust harness avrodrive",
